@@ -231,6 +231,9 @@ enum K {
     // unary union / tee written by the user (what eliminate_extra_unions_tees removes)
     UnaryUnion,
     UnaryTee,
+    // resolve_futures family (the two `_blocking` forms are hard-wired to the push colour)
+    ResolveFutures,
+    ResolveFuturesBlocking,
 }
 
 const TABLE: &[(K, u32)] = &[
@@ -302,6 +305,8 @@ const TABLE: &[(K, u32)] = &[
     (K::Source, 2),
     (K::UnaryUnion, 2),
     (K::UnaryTee, 2),
+    (K::ResolveFutures, 1),
+    (K::ResolveFuturesBlocking, 2),
 ];
 
 fn pick_kind(x: u16) -> K {
@@ -999,6 +1004,14 @@ impl Dec {
                     let pd = self.pend.remove(i);
                     self.close(pd, pa, pc);
                 }
+            }
+            K::ResolveFutures => {
+                let t = if pc % 2 == 0 { "resolve_futures" } else { "resolve_futures_ordered" };
+                unary!(t, format!("{t}()"), true);
+            }
+            K::ResolveFuturesBlocking => {
+                let t = if pc % 2 == 0 { "resolve_futures_blocking" } else { "resolve_futures_blocking_ordered" };
+                unary!(t, format!("{t}()"), true);
             }
             K::UnaryUnion => {
                 unary!("union", "union()".to_string(), true);
